@@ -26,7 +26,7 @@ def setup():
     OS.freeze_gc()
 
 
-def make_gen(weights, cfg_fn=None, nmin=8, nmax=40):
+def make_gen(weights, cfg_fn=None, nmin=8, nmax=40, shape=None):
     w = dict(BASE_WEIGHTS)
     w.update(weights)
     ops = [k for k, n in w.items() for _ in range(n)]
@@ -40,8 +40,43 @@ def make_gen(weights, cfg_fn=None, nmin=8, nmax=40):
         drop = set(rng.sample(sorted(set(ops)), rng.randint(0, 6)))
         pool = [o for o in ops if o not in drop or o in ("mk", "mk_child", "flush")]
         prog = [[rng.choice(pool), rng.randrange(64), rng.randrange(64)] for _ in range(rng.randint(nmin, nmax))]
+        if shape and rng.random() < 0.6:
+            prog = shape(rng, pool)
         return {"cfg": cfg, "prog": prog, "faults": []}
     return gen_case
+
+
+def txn_blocks(rng, pool):
+    """few objects, then blocks of [begin_nested]* work (begin_nested|flush-heavy)* end; faults land inside work that has in-flight state"""
+    r = lambda: rng.randrange(64)
+    prog = [[rng.choice(("mk", "mk", "mk_child", "q_ops")), r(), r()] for _ in range(rng.randint(1, 3))]
+    prog.append([rng.choice(("commit", "flush", "commit")), 0, 0])
+    if rng.random() < 0.5:
+        prog.append(["requery", r(), r()])
+    work = [o for o in pool if o in ("set", "set", "delete", "k_rename", "mk", "mk_child", "set_parent", "bs_append", "bs_remove", "tag_add",
+                                     "node_parent", "follow", "mut_data", "mut_items", "expire", "refresh", "lazy", "get")] or ["set"]
+    for _ in range(rng.randint(1, 4)):
+        depth = 0
+        for _ in range(rng.randint(0, 2)):
+            prog.append(["begin_nested", 0, 0])
+            depth += 1
+        for _ in range(rng.randint(2, 7)):
+            x = rng.random()
+            if x < 0.35:
+                prog.append(["flush", 0, 0])
+            elif x < 0.42:
+                prog.append(["begin_nested", 0, 0])
+                depth += 1
+            elif x < 0.5 and depth:
+                prog.append([rng.choice(("sp_rollback", "sp_commit")), 0, 0])
+                depth -= 1
+            else:
+                prog.append([rng.choice(work), rng.randrange(4), r()])
+        while depth and rng.random() < 0.7:
+            prog.append([rng.choice(("sp_rollback", "sp_rollback", "sp_commit")), 0, 0])
+            depth -= 1
+        prog.append([rng.choice(("rollback", "commit", "flush", "requery")), r(), r()])
+    return prog
 
 
 def make_run(props):
@@ -57,3 +92,14 @@ def make_run(props):
         res["viol"] = mine[:1]
         return res
     return run_case
+
+
+def define(g, pid, props, title, technique, level_text, level_note, weights=None, cfg_fn=None, quick=4000, nmin=8, nmax=40, level="exploration",
+           rule=None, shape=None):
+    g.update(ID=pid, LEVEL=level, ENGINE="ormsim", TECHNIQUE=technique, LEVEL_TEXT=level_text, LEVEL_NOTE=level_note,
+             TIERS={"quick": {"runs": quick, "secs": 35}, "thorough": {"runs": quick * 60, "secs": 420, "hashseeds": [0, 1, 2, 3]}},
+             SHRINK=["prog", "faults"], MIN_BUDGET=250,
+             RULE=rule or ("history = seeded op list with state-relative arguments + universe/config; distinct = digest of config, ops and "
+                           "outcomes; non-trivial = at least one flush that had pending changes"),
+             COMPONENTS_REAL=COMPONENTS_REAL, COMPONENTS_STUB=COMPONENTS_STUB, ASSUMPTIONS=ASSUMPTIONS, setup=setup,
+             gen_case=make_gen(weights or {}, cfg_fn, nmin, nmax, shape), run_case=make_run(tuple(props)))
